@@ -6,8 +6,7 @@ REPO=${VERIF_REPO:-/repo}
 BDIR=$(python3 tools/mkbuild.py "$REPO") || exit 2
 mkdir -p "$BDIR/bin" evidence replay
 rc=0
-for d in checks/*/; do
-  id=$(basename "$d")
+for id in $(python3 -c "import json;print(' '.join(c['property_id'].lower() for c in json.load(open('MANIFEST.json'))['checks']))"); do
   if ! go build -tags verif -overlay "$BDIR/overlay.json" -modfile "$BDIR/go.mod" -o "$BDIR/bin/$id" "./checks/$id" 2> "$BDIR/build-$id.log"; then
     cat "$BDIR/build-$id.log"; echo "setup: build of $id failed"; rc=1
   fi
